@@ -30,6 +30,19 @@ pub fn mk_rule(i: usize, body: &Value, hf: &str, hv: &str, bad: bool) -> Rule {
     Rule::new(format!("r{}", i), c, actions)
 }
 
+/// like mk_facts, with the look-alike string value "S"
+pub fn mk_facts_s(m: &HashMap<String, String>) -> Facts {
+    let f = mk_facts(m);
+    let mut keys: Vec<&String> = m.keys().collect();
+    keys.sort();
+    for k in keys {
+        if m[k] == "S" {
+            f.set(&format!("{}.v", k), RV::String("true".to_string()));
+        }
+    }
+    f
+}
+
 pub fn mk_facts(m: &HashMap<String, String>) -> Facts {
     let f = Facts::new();
     let mut keys: Vec<&String> = m.keys().collect();
@@ -165,6 +178,13 @@ impl Model for BW {
                 for k in keys {
                     copy.set(k, snapshot[k].clone());
                 }
+                // copy mode: both engines get their own fresh store holding exactly the facts the caller asserted (no derivations)
+                let copy_mode = l["copy"].as_bool().unwrap_or(false) && !with_rete;
+                let mut copy2 = mk_facts_s(&self.facts);
+                if copy_mode {
+                    copy = mk_facts_s(&self.facts);
+                }
+                let mut handed_back_ok = true;
                 let mut fresh = mk_engine(&self.rules, depth, strat, maxsol, true);
                 let (fv, _, _) = run_query_neg(&mut fresh, &mut copy, gf, gv, neg);
                 let pv = if with_rete {
@@ -177,13 +197,21 @@ impl Model for BW {
                         Ok(Err(_)) => "err".to_string(),
                         Err(_) => "panic".to_string(),
                     }
+                } else if copy_mode {
+                    // the caller hands the persistent engine a fresh copy of the facts it passed before (not the store that
+                    // earlier queries wrote their derivations into)
+                    let (v, holds, _) = run_query_neg(&mut self.pengine.as_mut().unwrap().0, &mut copy2, gf, gv, neg);
+                    handed_back_ok = neg || v != "yes" || holds;
+                    v
                 } else {
-                    run_query_neg(&mut self.pengine.as_mut().unwrap().0, &mut self.pfacts, gf, gv, neg).0
+                    let (v, holds, _) = run_query_neg(&mut self.pengine.as_mut().unwrap().0, &mut self.pfacts, gf, gv, neg);
+                    handed_back_ok = neg || v != "yes" || holds;
+                    v
                 };
-                if fv == pv {
+                if fv == pv && handed_back_ok {
                     json!({"agrees": true})
                 } else {
-                    json!({"agrees": false, "persistent_engine": pv, "fresh_engine": fv})
+                    json!({"agrees": fv == pv, "persistent_engine": pv, "fresh_engine": fv, "goal_true_in_facts_handed_back": handed_back_ok})
                 }
             }
             "rretract" => {
